@@ -753,6 +753,10 @@ func realDigest(r *rng, n int, sw *sweep) {
 		var sk crypto.Signer = k.priv
 		if r.chance(1, 2) {
 			sk = wrapped{k.priv} // an opaque crypto.Signer (HSM-style): ASN.1 → fixed width for ECDSA, PSS options for RSA
+			if r.chance(1, 2) {
+				// … one that, as the crypto.Signer contract allows, consults opts.HashFunc()
+				sk = optsReading{k.priv, hashOf(alg)}
+			}
 		}
 		s, err := cose.NewSigner(alg, sk)
 		v, err2 := cose.NewVerifier(alg, k.pub)
